@@ -190,15 +190,15 @@ type world struct {
 	cgoexitAt map[string]bool
 	noCB      bool
 	helperN   int
-	poisoned map[string]bool
-	abandon  bool
-	c        *sim.Case
-	e        *sim.Env
-	mode     string
-	flavor   int64
-	capa     int
-	cache    cacheAPI
-	nextID   int
+	poisoned  map[string]bool
+	abandon   bool
+	c         *sim.Case
+	e         *sim.Env
+	mode      string
+	flavor    int64
+	capa      int
+	cache     cacheAPI
+	nextID    int
 	// loader plan: key -> attempt -> fail / ttl
 	attempts     map[string]int
 	failAt       map[string]bool // "key#attempt"
